@@ -403,7 +403,8 @@ theorem cell_typed_from_styles_part :
     exact (cell_typed_by_style_xls defs hwf _ formats h i v d).2
 
 /-- non-vacuity: a styles part of each kind with inert material that carries date formats — a cell-STYLE XF with
-    format 14 and a differential format `<numFmt numFmtId="164" formatCode="yyyy">` next to the real 164 = `0.0` —
+    format 14 which every cell `<xf>` points at (`xfId="0"`) while saying `applyNumberFormat="0"` (the cell xf's own
+    `numFmtId` decides all the same), and a differential format `<numFmt numFmtId="164" formatCode="yyyy">` next to the real 164 = `0.0` —
     decodes to the real table -/
 example :
     let d : StyleDesc := ⟨[(164, "0.0".toList), (165, "[h]:mm".toList)], [0, 164, 165, 14]⟩
@@ -413,7 +414,8 @@ example :
       .start "x:numFmt".toList [("numFmtId".toList, decimal 164), ("formatCode".toList, utf8Bytes "yyyy".toList)],
       .end_ "x:numFmt".toList, .end_ "x:dxfs".toList]
     let lx : XlsxLayout := ⟨some "x".toList, false, [], [.other], mid, post, [("fontId".toList, decimal 0)],
-      [("xfId".toList, decimal 0)], [.start "x:alignment".toList [], .end_ "x:alignment".toList], []⟩
+      [("xfId".toList, decimal 0), ("applyNumberFormat".toList, decimal 0)],
+      [.start "x:alignment".toList [], .end_ "x:alignment".toList], []⟩
     let lb : XlsbLayout := ⟨[⟨0x0116, [], false, 0⟩, ⟨0x0263, [0xE7, 0x04, 1, 0], true, 2⟩],
       [⟨0x0272, Xlsb.le32 1, false, 0⟩, ⟨0x002F, brtXfPayload 14 0xFFFF [], false, 0⟩, ⟨0x0273, [], false, 0⟩],
       [0x97, 0x02, 0x00], [⟨true, 3⟩], [], ⟨false, 0⟩⟩
